@@ -23,12 +23,23 @@
 (* loop's ready queue).  Quiescent = nothing is ready.                     *)
 (*                                                                         *)
 (* Fix* constants: TRUE = repaired design, FALSE = the code as found.      *)
+(*                                                                         *)
+(* Ways the direct attempt (and the connect-back) can fail to connect:     *)
+(* refused, 10 s timeout, and "invalid": the port the peer is known under  *)
+(* is not a TCP port (ports are uint32 on the wire), so the connect call   *)
+(* itself raises something that is not an OSError.  All of them are "the   *)
+(* direct path does not work": the property promises the indirect attempt  *)
+(* resp. a PeerConnectionError resp. a CannotConnect report, whatever the  *)
+(* exception class underneath.                                             *)
 (***************************************************************************)
 EXTENDS Naturals, FiniteSets, TLC
 
 CONSTANTS
   Modes,         \* subset of {"fallback", "race"}
   GivenChoices,  \* subset of BOOLEAN: TRUE = the caller passes ip/port (no GetPeerAddress)
+  BadPortChoices, \* subset of BOOLEAN: TRUE = the port the peer is known under (GetPeerAddress reply, caller's
+                 \* argument) is not a TCP port - ports are uint32 on the wire, > 65535 is legal input - so the
+                 \* connect call itself raises (OverflowError, not an OSError) instead of being refused
   SendFailChoices, \* subset of BOOLEAN: TRUE = writing ConnectToPeer to the server fails
   WithRequest,   \* the outgoing request is part of the model
   WithConnectBack, \* the inbound mirror is part of the model
@@ -43,7 +54,7 @@ CONSTANTS
 Conns == {"d", "p", "b"}      \* direct, pierce (incoming, for our ticket), connect-back
 
 VARIABLES
-  mode, given, sendFail,        \* the scenario (fixed)
+  mode, given, sendFail, badPort, \* the scenario (fixed)
   pcO, pcD, pcI, pcP, pcB,      \* program counters
   cst,                          \* connection state: none UNINIT CONNECTING CONNECTED ESTAB CLOSING CLOSED
   creg,                         \* in Network.peer_connections
@@ -58,11 +69,11 @@ VARIABLES
   srvDead,                      \* the server connection was closed by a write error
   pierced, ccSent, addrSent, cancelReq   \* environment budgets (each happens at most once)
 
-vars == <<mode, given, sendFail, pcO, pcD, pcI, pcP, pcB, cst, creg, clink, tw, rw, aw, addrKind, connV,
+vars == <<mode, given, sendFail, badPort, pcO, pcD, pcI, pcP, pcB, cst, creg, clink, tw, rw, aw, addrKind, connV,
           initMode, dAfter, dCause, iRes, iAfter, iCause, bV, bSend, consumed, got, winner, discC,
           srvSaw, peerSaw, srvDead, pierced, ccSent, addrSent, cancelReq>>
 
-scenarioVars == <<mode, given, sendFail>>
+scenarioVars == <<mode, given, sendFail, badPort>>
 dVars == <<pcD, addrKind, connV, initMode, dAfter, dCause>>
 iVars == <<pcI, iRes, iAfter, iCause>>
 bVars == <<pcB, bV, bSend>>
@@ -78,7 +89,7 @@ OTerm == {"returned", "raised", "cancelled"}
 BTerm == {"done", "failed"}
 
 Init ==
-  /\ mode \in Modes /\ given \in GivenChoices /\ sendFail \in SendFailChoices
+  /\ mode \in Modes /\ given \in GivenChoices /\ sendFail \in SendFailChoices /\ badPort \in BadPortChoices
   /\ pcO = "idle" /\ pcD = "idle" /\ pcI = "idle" /\ pcP = "none" /\ pcB = "idle"
   /\ cst = [c \in Conns |-> "none"] /\ creg = [c \in Conns |-> FALSE] /\ clink = [c \in Conns |-> "none"]
   /\ tw = FALSE /\ rw = FALSE /\ aw = FALSE
@@ -296,13 +307,14 @@ CancelRequest ==
 DStart ==
   /\ pcD = "start"
   /\ IF given
-       THEN /\ pcD' = "connecting"
+       THEN /\ pcD' = IF badPort THEN "connRes" ELSE "connecting"
+            /\ connV' = IF badPort THEN "invalid" ELSE connV
             /\ cst' = [cst EXCEPT !["d"] = "CONNECTING"] /\ creg' = [creg EXCEPT !["d"] = TRUE]
             /\ srvSaw' = srvSaw
-       ELSE /\ pcD' = "askAddr"
+       ELSE /\ pcD' = "askAddr" /\ connV' = connV
             /\ srvSaw' = IF srvDead THEN srvSaw ELSE srvSaw \cup {"GPA"}
             /\ UNCHANGED <<cst, creg>>
-  /\ UNCHANGED <<scenarioVars, addrKind, connV, initMode, dAfter, dCause, iVars, pcP, bVars, oVars, clink, waitVars,
+  /\ UNCHANGED <<scenarioVars, addrKind, initMode, dAfter, dCause, iVars, pcP, bVars, oVars, clink, waitVars,
                  peerSaw, srvDead, envVars>>
 
 \* network.py:632-637: the response future is registered after the send
@@ -328,11 +340,14 @@ AddrReply(k) ==
 DGotAddr ==
   /\ pcD = "gotAddr"
   /\ IF addrKind = "ok"
-       THEN /\ pcD' = "connecting" /\ dCause' = dCause
+       THEN \* with a port that is not a TCP port open_connection raises at once: no environment step
+            /\ pcD' = IF badPort THEN "connRes" ELSE "connecting"
+            /\ connV' = IF badPort THEN "invalid" ELSE connV
+            /\ dCause' = dCause
             /\ cst' = [cst EXCEPT !["d"] = "CONNECTING"] /\ creg' = [creg EXCEPT !["d"] = TRUE]
-       ELSE /\ pcD' = "failed" /\ dCause' = addrKind
+       ELSE /\ pcD' = "failed" /\ dCause' = addrKind /\ connV' = connV
             /\ UNCHANGED <<cst, creg>>
-  /\ UNCHANGED <<scenarioVars, addrKind, connV, initMode, dAfter, iVars, pcP, bVars, oVars, clink, waitVars, seenVars,
+  /\ UNCHANGED <<scenarioVars, addrKind, initMode, dAfter, iVars, pcP, bVars, oVars, clink, waitVars, seenVars,
                  srvDead, envVars>>
 
 \* environment, repaired design only: the wait for an address that can no longer arrive (the server
@@ -380,7 +395,8 @@ DConnRes ==
                    /\ cst' = [cst EXCEPT !["d"] = "CLOSING"] /\ clink' = [clink EXCEPT !["d"] = "closed"]
                    /\ pcD' = "dClosing" /\ dAfter' = "failed" /\ dCause' = "initfail"
                    /\ UNCHANGED <<creg, peerSaw>>
-       ELSE \* disconnect(CONNECT_FAILED) without a writer does not suspend
+       ELSE \* refused / timed out / the connect call raised (invalid port): whatever the exception class,
+            \* connect() reports ConnectionFailedError; disconnect(CONNECT_FAILED) without a writer does not suspend
             /\ cst' = [cst EXCEPT !["d"] = "CLOSED"] /\ creg' = [creg EXCEPT !["d"] = FALSE]
             /\ pcD' = "failed" /\ dCause' = connV
             /\ UNCHANGED <<clink, peerSaw, dAfter>>
@@ -507,15 +523,16 @@ IClosing ==
 \* B - _on_connect_to_peer / _handle_connect_to_peer (network.py:794-804, 905-945)
 
 \* environment: the server relays another peer's ConnectToPeer
-CtpRequest ==
+CtpRequest(k) ==
   /\ WithConnectBack /\ EnvOK /\ pcB = "idle" /\ ~srvDead
   /\ pcB' = "start"
-  /\ UNCHANGED <<scenarioVars, dVars, iVars, pcP, bV, bSend, oVars, connVars, waitVars, seenVars, srvDead, envVars>>
+  /\ bV' = IF k = "badport" THEN "invalid" ELSE bV       \* the relayed port is not a TCP port
+  /\ UNCHANGED <<scenarioVars, dVars, iVars, pcP, bSend, oVars, connVars, waitVars, seenVars, srvDead, envVars>>
 
 BStart ==
   /\ pcB = "start"
   /\ cst' = [cst EXCEPT !["b"] = "CONNECTING"] /\ creg' = [creg EXCEPT !["b"] = TRUE]
-  /\ pcB' = "connecting"
+  /\ pcB' = IF bV = "invalid" THEN "connRes" ELSE "connecting"
   /\ UNCHANGED <<scenarioVars, dVars, iVars, pcP, bV, bSend, oVars, clink, waitVars, seenVars, srvDead, envVars>>
 
 BConn(v, s) ==
@@ -574,7 +591,7 @@ Env == \/ Request \/ CancelRequest
        \/ \E m \in InitModes : ConnOk(m)
        \/ ConnRefused \/ ConnTimeout \/ InitResume \/ InitTimeout \/ AddrWaitEnds
        \/ Pierce \/ CannotConnect \/ IndTimeout
-       \/ CtpRequest \/ (\E s \in {"ok", "fail"} : BConnOk(s)) \/ BConnRefused \/ BConnTimeout
+       \/ (\E k \in {"ok", "badport"} : CtpRequest(k)) \/ (\E s \in {"ok", "fail"} : BConnOk(s)) \/ BConnRefused \/ BConnTimeout
 
 Next == Internal \/ Env
 
